@@ -13,7 +13,7 @@ sys.path.insert(0, os.path.join(vf.ROOT, "harness"))
 import c16_objmodel as om
 
 AREA = "C16"
-THREAD_CLASSES = C16.HIST_CLASSES
+THREAD_CLASSES = C16.HIST_CLASSES + ["QField<Rational>", "Independent<Integer,Rational,ruint>"]
 NO_COPY_IN_THREADS = {"RNSsystem<Integer,Modular<double>>"}   # Array0 members live in the process-wide free lists (excluded by the property text)
 ALLOCATOR_MARKS = ("GivMMFreeList", "GivMMRefCount", "GivMMInfo", "givaromm", "BlocFreeList")
 
